@@ -326,23 +326,23 @@ func c04Gen(t *rapid.T) c04Case {
 		st := rapid.SampledFrom(steps).Draw(t, "faultstep")
 		c.Steps[st] = c04Outcome(t, "fault")
 	}
-	// one case in eight: an impatient client (150 ms) and a server that answers one command positively
-	// but late (350 ms): whatever the client does after its time-out, it must not get out of step
-	if cfg.TLS == "none" && rapid.IntRange(0, 7).Draw(t, "late") == 0 {
-		c.Cfg.TimeoutMS = 150
+	// one plain-text case in 24: an impatient client (80 ms) and a server that answers one command
+	// positively but late (100..200 ms: within or beyond twice the time-out): whatever the client does after its time-out, it must not get out of step
+	if cfg.TLS == "none" && rapid.IntRange(0, 23).Draw(t, "late") == 0 {
+		c.Cfg.TimeoutMS = 80
 		var cand []string
 		for m := 1; m <= n; m++ {
 			cand = append(cand, fmt.Sprintf("mail#%d", m), fmt.Sprintf("rcpt#%d.1", m), fmt.Sprintf("rcpt#%d.2", m), fmt.Sprintf("data#%d", m), fmt.Sprintf("eod#%d", m))
 		}
 		cand = append(cand, "noop#1", "noop#2", "rset#1")
-		c.Steps[rapid.SampledFrom(cand).Draw(t, "latestep")] = refsmtp.Outcome{Kind: "late", DelayMS: 350}
+		c.Steps[rapid.SampledFrom(cand).Draw(t, "latestep")] = refsmtp.Outcome{Kind: "late", DelayMS: rapid.SampledFrom([]int{100, 120, 120, 150, 200}).Draw(t, "latems")}
 	}
 	return c
 }
 
 func c04Describe() {
 	rec := core.Rec("C04")
-	rec.Rule = "sessions of the real Client against the strict reference server (own RFC 5321 command parser + transaction automaton) over in-memory connections. Random part: rapid draws the advertised capability subset of {8BITMIME, SMTPUTF8, DSN, ENHANCEDSTATUSCODES, STARTTLS, AUTH} (optionally a different set after STARTTLS), TLS policy, AUTH on/off, DSN off/WithDSN/custom RET+NOTIFY, 1..3 messages x 1..3 recipients with QP/base64/8bit encoding, Send on a dialled client or DialAndSend, one case in four as the SECOND connection of a Client whose first connection (dial + close) met a server advertising every extension, 0..5 non-ok replies (4yz, 5yz, drop, 421+close) at drawn step ids, messages without any recipient in the batch, and (one plain-text case in eight) a client with a 150 ms time-out facing one positive reply that arrives 350 ms late. " +
+	rec.Rule = "sessions of the real Client against the strict reference server (own RFC 5321 command parser + transaction automaton) over in-memory connections. Random part: rapid draws the advertised capability subset of {8BITMIME, SMTPUTF8, DSN, ENHANCEDSTATUSCODES, STARTTLS, AUTH} (optionally a different set after STARTTLS), TLS policy, AUTH on/off, DSN off/WithDSN/custom RET+NOTIFY, 1..3 messages x 1..3 recipients with QP/base64/8bit encoding, Send on a dialled client or DialAndSend, one case in four as the SECOND connection of a Client whose first connection (dial + close) met a server advertising every extension, 0..5 non-ok replies (4yz, 5yz, drop, 421+close) at drawn step ids, messages without any recipient in the batch, and (one plain-text case in 24) a client with an 80 ms time-out facing one positive reply that arrives 100..200 ms late. " +
 		"Enumerated part (TestC04Enum): for every capability subset (64; 8 in quick) x 2 client configurations x batch 2x2, the fault-free run is recorded and then EVERY step id it contains is replaced by each of {4yz, 5yz, drop} (all <= 1-fault scripts), and every rejected MAIL/RCPT/DATA combined with a refused abandoning RSET; thorough additionally all 2-fault scripts for four capability sets. " +
 		"Oracle: no automaton violation (bytes before greeting, command before EHLO, nested MAIL, RCPT without MAIL, DATA without or after a rejected recipient, unadvertised or mis-formed ESMTP parameter, pipelining, malformed command), no MAIL for an 8bit message without 8BITMIME, RET/NOTIFY exactly as configured, and the reply tag quoted by each SendError belongs to the command kind and transaction named by its Reason. " +
 		"Non-trivial: >= 1 non-ok reply, or a capability set that suppresses a configured parameter. Distinct by (capabilities, config, batch, fault script)."
